@@ -78,7 +78,100 @@ def evaluate(t, env, tables):
     if k == "icmp":
         a = evaluate(t[2], env, tables)
         b = evaluate(t[3], env, tables)
+        if t[1] in ("slt", "sle", "sgt", "sge"):
+            w = width_of(t[2]) or width_of(t[3])
+            if w is None:
+                raise AnalysisBroken("termeval: width of a signed comparison unknown: %r" % (t,))
+            if a >> (w - 1):
+                a -= 1 << w
+            if b >> (w - 1):
+                b -= 1 << w
+            return int({"slt": a < b, "sle": a <= b, "sgt": a > b, "sge": a >= b}[t[1]])
         return int({"eq": a == b, "ne": a != b, "ult": a < b, "ule": a <= b, "ugt": a > b, "uge": a >= b}[t[1]])
     if k == "not":
         return 1 - evaluate(t[1], env, tables)
     raise AnalysisBroken("termeval: term %r" % (t,))
+
+
+def width_of(t):
+    """bit width of an integer term, where the term itself says so"""
+    if isinstance(t, tuple):
+        if t[0] == "op":
+            return bits_of(t[2])
+        if t[0] == "cast":
+            return bits_of(t[2])
+    return None
+
+
+def compile_terms(terms, leaves, tables=None):
+    """Compile integer terms into one Python function f(*leaf_values) -> tuple of values (same semantics as
+    evaluate, common subterms computed once).  `leaves` is the ordered list of leaf terms."""
+    tables = tables or {}
+    lines = []
+    names = {}
+    for i, l in enumerate(leaves):
+        names[l] = "a%d" % i
+
+    def emit(expr):
+        n = "v%d" % len(lines)
+        lines.append("    %s = %s" % (n, expr))
+        return n
+
+    def go(t):
+        if t in names:
+            return names[t]
+        k = t[0]
+        if k == "c":
+            r = emit(str(t[1]))
+        elif k == "cast":
+            v = go(t[3])
+            if t[1] == "trunc":
+                r = emit("%s & %d" % (v, mask(bits_of(t[2]))))
+            elif t[1] == "zext":
+                r = v
+            elif t[1] == "sext":
+                inner = t[3]
+                sb = bits_of(inner[2]) if isinstance(inner, tuple) and inner[0] in ("op", "cast") else 32
+                r = emit("((%s - %d) & %d) if (%s >> %d) else %s" % (v, 1 << sb, mask(bits_of(t[2])), v, sb - 1, v))
+            else:
+                raise AnalysisBroken("termeval: cast %s" % t[1])
+        elif k == "op":
+            op, ty = t[1], t[2]
+            a, b = go(t[3]), go(t[4])
+            bits = bits_of(ty)
+            m = mask(bits)
+            if op in ("add", "sub", "mul", "and", "or", "xor"):
+                sym = {"add": "+", "sub": "-", "mul": "*", "and": "&", "or": "|", "xor": "^"}[op]
+                r = emit("(%s %s %s) & %d" % (a, sym, b, m))
+            elif op == "shl":
+                r = emit("((%s << %s) & %d) if %s < %d else 0" % (a, b, m, b, bits))
+            elif op == "lshr":
+                r = emit("(%s >> %s) if %s < %d else 0" % (a, b, b, bits))
+            elif op == "ashr":
+                r = emit("(((%s - %d) if (%s >> %d) else %s) >> min(%s, %d)) & %d" % (a, 1 << bits, a, bits - 1, a, b, bits - 1, m))
+            else:
+                raise AnalysisBroken("termeval: op %s" % op)
+        elif k == "icmp":
+            a, b = go(t[2]), go(t[3])
+            if t[1] in ("slt", "sle", "sgt", "sge"):
+                w = width_of(t[2]) or width_of(t[3])
+                if w is None:
+                    raise AnalysisBroken("termeval: width of a signed comparison unknown: %r" % (t,))
+                sa = emit("(%s - %d) if (%s >> %d) else %s" % (a, 1 << w, a, w - 1, a))
+                sb_ = emit("(%s - %d) if (%s >> %d) else %s" % (b, 1 << w, b, w - 1, b))
+                sym = {"slt": "<", "sle": "<=", "sgt": ">", "sge": ">="}[t[1]]
+                r = emit("int(%s %s %s)" % (sa, sym, sb_))
+            else:
+                sym = {"eq": "==", "ne": "!=", "ult": "<", "ule": "<=", "ugt": ">", "uge": ">="}[t[1]]
+                r = emit("int(%s %s %s)" % (a, sym, b))
+        elif k == "not":
+            r = emit("1 - %s" % go(t[1]))
+        else:
+            raise AnalysisBroken("termeval: term %r" % (t,))
+        names[t] = r
+        return r
+    outs = [go(t) for t in terms]
+    src = "def _f(%s):\n%s\n    return (%s,)\n" % (", ".join("a%d" % i for i in range(len(leaves))), "\n".join(lines) or "    pass", ", ".join(outs))
+    ns = {}
+    exec(src, ns)
+    return ns["_f"]
